@@ -351,6 +351,68 @@ theorem handleProcessorError_keepsP (f : Fail) (s : St) : KeepsP s (handleProces
   · exact KeepsP.refl s
   · exact startErrback_keepsP f s
 
+/-! ### After a processor failure nothing is delivered (`C03.haltStep`) -/
+
+/-- the halted-delivery monitor is in the same state after `s'` as after `s` -/
+def KeepsH (s s' : St) : Prop := runR C03.haltStep {} s'.out = runR C03.haltStep {} s.out
+
+/-- entering the processing loop: after a processor failure only a `stop()` in progress comes through here (and
+    the loop lets nothing through then) -/
+def LoopH (s : St) : Prop := (runR C03.haltStep {} s.out).halted = true → s.stopping = true
+
+/-- leaving the processing loop normally -/
+def HaltPost (s : St) : Prop := (runR C03.haltStep {} s.out).halted = true → s.stopping = true ∨ s.startD = .none
+
+theorem KeepsH.refl (s : St) : KeepsH s s := rfl
+theorem KeepsH.trans {a b c : St} (h1 : KeepsH a b) (h2 : KeepsH b c) : KeepsH a c := Eq.trans h2 h1
+
+@[simp] theorem haltStep_procRet_ok (M : C03.HaltSt) : C03.haltStep M (.ob (.procRet .ok)) = M := rfl
+@[simp] theorem haltStep_procRet_defer (M : C03.HaltSt) : C03.haltStep M (.ob (.procRet .defer)) = M := rfl
+@[simp] theorem haltStep_procCancel (M : C03.HaltSt) : C03.haltStep M (.ob .procCancel) = M := rfl
+@[simp] theorem haltStep_procOk (M : C03.HaltSt) : C03.haltStep M (.ev .procOk) = M := rfl
+
+theorem looperReset_keepsH (cfg : Cfg) (s : St) : KeepsH s (looperReset cfg s) := by
+  unfold KeepsH looperReset emit; grind [C03.haltStep, runR_cons]
+theorem sendCommitRequest_keepsH (cfg : Cfg) (d : Option Rat) (a : Option Nat) (s : St) :
+    KeepsH s (sendCommitRequest cfg d a s) := by
+  unfold KeepsH sendCommitRequest crash emit; grind [C03.haltStep, runR_cons]
+theorem keepsH_send (cfg : Cfg) (x s : St) (h : KeepsH s x) :
+    KeepsH s (looperReset cfg (sendCommitRequest cfg none none x)) :=
+  KeepsH.trans (KeepsH.trans h (sendCommitRequest_keepsH cfg none none x)) (looperReset_keepsH cfg _)
+theorem commitState_keepsH (cfg : Cfg) (w : Who) (s : St) : KeepsH s (commitState cfg w s) := by
+  unfold commitState
+  split
+  · exact KeepsH.refl s
+  · split
+    · exact KeepsH.refl s
+    · split
+      · cases w <;> exact rfl
+      · simp only []
+        exact keepsH_send cfg _ s rfl
+theorem startErrback_keepsH (f : Fail) (s : St) : KeepsH s (startErrback f s) := by
+  unfold KeepsH startErrback emit; grind [C03.haltStep, runR_cons]
+theorem handleAutoCommitError_keepsH (f : Fail) (s : St) : KeepsH s (handleAutoCommitError f s) := by
+  unfold handleAutoCommitError
+  split
+  · exact KeepsH.refl s
+  · split
+    · exact startErrback_keepsH f s
+    · exact KeepsH.refl s
+theorem autoCommit_keepsH (cfg : Cfg) (b : Bool) (s : St) : KeepsH s (autoCommit cfg b s) := by
+  unfold autoCommit
+  simp only []
+  repeat' split
+  all_goals first
+    | exact KeepsH.refl s
+    | exact KeepsH.trans (commitState_keepsH cfg .auto s) (handleAutoCommitError_keepsH _ _)
+    | exact commitState_keepsH cfg .auto s
+    | exact rfl
+theorem handleProcessorError_keepsH (f : Fail) (s : St) : KeepsH s (handleProcessorError f s) := by
+  unfold handleProcessorError
+  split
+  · exact KeepsH.refl s
+  · exact startErrback_keepsH f s
+
 /-- the messages `_handle_fetch_response` extracts may be handed to the processing loop -/
 theorem extract_loop {cfg : Cfg} {s x : St} (hi : Ginc cfg s) (hf : s.frame = none) (hp : s.proc = none)
     (r : Reply) (hr : ReplyOk r)
